@@ -11,5 +11,5 @@ CONSTANTS
   MaxAccept = 3
   MaxEnd = 1
   Variant = "syn_jumps_backlog"
-INVARIANTS TypeOK KeyUnique LimitRespected NoEviction BacklogBound RefusedOnlyWhenFull AcceptFifo AcceptCallOrder SlotsBounded NoIdleAcceptor
+INVARIANTS TypeOK KeyUnique LimitRespected NoEviction BacklogBound RefusedOnlyWhenFull AcceptFifo AcceptCallOrder SlotsBounded NoIdleAcceptor ParkedNotStarved
 CHECK_DEADLOCK FALSE
